@@ -20,7 +20,8 @@ using L3 = Eigen::Matrix<long double, 3, 3>;
 
 namespace {
 
-bool g_th = false;   // thorough tier: denser catalogues
+bool g_th = true;    // the catalogue extension formerly reserved to the thorough tier is part of both tiers now
+bool g_x = false;    // thorough tier: dense sweeps on top
 
 L3 refR(long double r, long double p, long double y) {
   L3 Rx, Ry, Rz;
@@ -51,6 +52,7 @@ std::vector<Eigen::Vector3d> attitudes() {
   std::vector<Eigen::Vector3d> v;
   std::vector<double> rs = {0.0, 0.7, -2.5, 3.0}, ps = {0.0, 0.3, -1.2, M_PI / 2 - 1.5e-3, M_PI / 2 - 2e-3, -(M_PI / 2 - 4e-3), M_PI / 2 - 0.01}, ys = {0.0, 0.4, -3.0, 5.5};
   if (g_th) { for (double x : {M_PI / 2, -M_PI / 2, M_PI, 1e-9, -0.3, 6.2}) rs.push_back(x); for (double x : {-0.3, 0.9, 1.2, -1.5, 1.55, -(M_PI / 2 - 1.1e-3), M_PI / 2 - 3e-3, -(M_PI / 2 - 0.02)}) ps.push_back(x); for (double x : {M_PI / 2, -M_PI / 2, M_PI, -1e-9, 2.0, -6.0}) ys.push_back(x); }
+  if (g_x) { for (int k = -6; k <= 6; ++k) { rs.push_back(0.45 * k + 0.013); ys.push_back(0.51 * k - 0.007); } for (int k = -12; k <= 12; ++k) ps.push_back(0.125 * k + 0.004); }
   for (double r : rs) for (double p : ps) for (double y : ys) v.push_back({r, p, y});
   return v;
 }
@@ -68,6 +70,10 @@ std::vector<Eigen::Affine3d> transforms() {
   Rs.push_back(Eigen::AngleAxisd(2.7, Eigen::Vector3d(-2, 1, 3).normalized()).toRotationMatrix());
   Rs.push_back((Eigen::AngleAxisd(1.1, Eigen::Vector3d::UnitX()) * Eigen::AngleAxisd(-0.7, Eigen::Vector3d::UnitY())).toRotationMatrix());
   if (g_th) for (Eigen::Vector3d ax : {Eigen::Vector3d(1, 0, 0), Eigen::Vector3d(0, 1, 0), Eigen::Vector3d(1, -1, 1), Eigen::Vector3d(0.1, -1, 0.2)}) for (double a : {1e-3, 1.0, -2.5, M_PI - 1e-3}) Rs.push_back(Eigen::AngleAxisd(a, ax.normalized()).toRotationMatrix());
+  // nearly planar and nearly identity transforms
+  for (double tilt : {1e-9, 1e-6, 3e-4, 8e-4}) Rs.push_back((Eigen::AngleAxisd(0.4, Eigen::Vector3d::UnitZ()) * Eigen::AngleAxisd(tilt, Eigen::Vector3d(1, 0.5, 0).normalized())).toRotationMatrix());
+  Rs.push_back(Eigen::AngleAxisd(1e-7, Eigen::Vector3d(-2, 1, 3).normalized()).toRotationMatrix());
+  if (g_x) for (int i = 0; i < 12; ++i) { Eigen::Vector3d ax(std::cos(1.0 + 2.4 * i), std::sin(0.3 + 1.7 * i), std::cos(2.0 + 0.9 * i) + 0.011); for (double a : {0.35, -1.3, 2.2, 3.0}) Rs.push_back(Eigen::AngleAxisd(a, ax.normalized()).toRotationMatrix()); }
   for (auto& R : Rs) for (auto& t : ts) { Eigen::Affine3d T = Eigen::Affine3d::Identity(); T.linear() = R; T.translation() = t; v.push_back(T); }
   return v;
 }
@@ -159,17 +165,17 @@ void group_action(vf::Ctx& c, size_t it) {
 
 void ellipses(vf::Ctx& c, bool th) {
   std::vector<std::array<double, 2>> ab = {{1, 1}, {4, 1}, {2.5, 0}, {1e4, 1e-4}, {1e-6, 1e-8}, {9, 8.999}, {0, 0}, {1e8, 1}, {3, 1e-9}};
-  int step = th ? 1 : 5;
-  for (auto& e : ab) for (int deg = 0; deg < 180; deg += step) for (double sigma : {0.1, 1.0, 3.0, 10.0}) {
-    double th_ = deg * M_PI / 180;
+  int step = th ? 1 : 4;   // in quarter degrees
+  for (auto& e : ab) for (int deg = 0; deg < 720; deg += step) for (double sigma : {0.1, 1.0, 3.0, 10.0}) {
+    double th_ = deg * M_PI / 720;
     Eigen::Matrix2d Q; Q << std::cos(th_), -std::sin(th_), std::sin(th_), std::cos(th_);
     Eigen::Matrix2d C = Q * Eigen::Vector2d(e[0], e[1]).asDiagonal() * Q.transpose(); C = ((C + C.transpose()) / 2).eval();
     Position2D p2; p2.position = Eigen::Vector2d(3.5, -1e3); p2.covariance = C;
     Pose2D po; po.position = p2.position; po.yaw = 0.3; po.covariance.setZero(); po.covariance.block<2, 2>(0, 0) = C; po.covariance(2, 2) = 0.5; po.covariance(0, 2) = po.covariance(2, 0) = 0.01 * std::sqrt(e[0]);
     for (int which = 0; which < 2; ++which) {
       Ellipse el = which ? uncertaintyEllipse(po, sigma) : uncertaintyEllipse(p2, sigma);
-      c.eval(); if (e[1] == 0 || deg % 90) c.nontrivial();
-      std::string params = vf::JO().str("via", which ? "Pose2D" : "Position2D").num("lambda_major", e[0]).num("lambda_minor", e[1]).i("axis_deg", deg).num("sigma", sigma).done();
+      c.eval(); if (e[1] == 0 || deg % 360) c.nontrivial();
+      std::string params = vf::JO().str("via", which ? "Pose2D" : "Position2D").num("lambda_major", e[0]).num("lambda_minor", e[1]).num("axis_deg", deg / 4.0).num("sigma", sigma).done();
       double a = el.getMajorRadius(), b = el.getMinorRadius(), o = el.getOrientation();
       c.obs(a); c.obs(b);
       bool ok = a >= b && b >= 0 && std::isfinite(a) && std::isfinite(b) && std::isfinite(o) && el.getCenterPosition() == p2.position;
@@ -189,22 +195,23 @@ void ellipses(vf::Ctx& c, bool th) {
 
 }  // namespace
 
-uint64_t vf_ncases(const std::string& tier) { g_th = tier == "thorough"; return 2 + transforms().size(); }
+uint64_t vf_ncases(const std::string& tier) { g_x = tier == "thorough"; return 2 + transforms().size(); }
 
 void vf_run(uint64_t idx, const std::string& tier, vf::Ctx& c) {
-  bool th = tier == "thorough"; g_th = th;
+  bool th = tier == "thorough"; g_x = th;
   if (idx == 0) reductions(c); else if (idx == 1) ellipses(c, th); else group_action(c, idx - 2);
 }
 
 std::string vf_describe(const std::string& tier) {
-  g_th = tier == "thorough";
+  g_x = tier == "thorough";
   vf::JO o;
-  o.str("thorough_extension", "attitudes: 10 rolls x 15 pitches (down to 1.1e-3 rad from gimbal lock) x 10 yaws; 16 more rotations x 3 translations");
+  o.str("catalogue", "attitudes: 10 rolls x 15 pitches (down to 1.1e-3 rad from gimbal lock) x 10 yaws; 30 rotations (incl. nearly planar: yaw composed with a tilt of 1e-9..8e-4 rad, and a 1e-7 rad rotation) x 3 translations");
+  if (g_x) o.str("thorough_extension", "attitudes: + 13 rolls, 25 pitches (step 0.125), 13 yaws; + 12 generic axes x 4 angles; ellipse axis every 0.25 deg");
   o.u("covariances", cov_catalogue().size()).u("attitudes", attitudes().size()).u("positions", positions().size()).u("transforms", transforms().size());
   o.str("covariance_catalogue", "Q diag(d) Q^T, d from 7 patterns over {0,1e-8,1e-4,1,..,1e4} (rank-deficient included), Q identity or a product of 15 Givens rotations (3 variants)");
   o.str("attitudes", "roll {0,0.7,-2.5,3} x pitch {0,0.3,-1.2,pi/2-1.5e-3,pi/2-2e-3,-(pi/2-4e-3),pi/2-0.01} x yaw {0,0.4,-3,5.5}; cases within 1e-3 rad of gimbal lock before or after the transform are skipped (trivial)");
   o.str("transforms", "rotations: identity, yaw 0.4/-2/pi, roll 0.5, pitch pi/2-0.3-3e-3, three general axes x translations {0,(0.3,-1.2,2),(1e3,-1e3,10)}; compositions with every 4th transform");
-  o.str("ellipses", tier == "thorough" ? "9 eigenvalue pairs (rank-1, rank-0, kappa up to 1e8) x axis 0..179 deg step 1 x sigma {0.1,1,3,10} x {Position2D,Pose2D}" : "9 eigenvalue pairs (rank-1, rank-0, kappa up to 1e8) x axis 0..175 deg step 5 x sigma {0.1,1,3,10} x {Position2D,Pose2D}");
+  o.str("ellipses", tier == "thorough" ? "9 eigenvalue pairs (rank-1, rank-0, kappa up to 1e8) x axis 0..179.75 deg step 0.25 x sigma {0.1,1,3,10} x {Position2D,Pose2D}" : "9 eigenvalue pairs (rank-1, rank-0, kappa up to 1e8) x axis 0..179 deg step 1 x sigma {0.1,1,3,10} x {Position2D,Pose2D}");
   o.str("tolerances", "attitude as rotation: min(1e-9, 2e-14+2e-15/cos(pitch)); ellipse reconstruction 1e-12 relative to the major eigenvalue; reductions exact");
   return o.done();
 }
